@@ -160,6 +160,9 @@ def _shard_main(args):
                 stats.nontrivial(case)
 
         phases = [Phase.generate, Phase.shrink]
+        if os.environ.get('VERIF_NOSHRINK'):
+            # sensitivity sweeps (mutants/automut.py) only need the verdict
+            phases = [Phase.generate]
         sett = settings(
             max_examples=n_cases, database=None, deadline=None,
             report_multiple_bugs=False, phases=phases,
@@ -209,9 +212,11 @@ def run_one(mod, case, known):
 
 
 def write_replay(prop_id, case, bucket, message, seed):
-    os.makedirs(os.path.join(VERIF, 'replays', 'found'), exist_ok=True)
+    rdir = os.environ.get('VERIF_REPLAY_DIR') or \
+        os.path.join(VERIF, 'replays', 'found')
+    os.makedirs(rdir, exist_ok=True)
     name = '%s-%s.json' % (prop_id, digest(case))
-    path = os.path.join(VERIF, 'replays', 'found', name)
+    path = os.path.join(rdir, name)
     with open(path, 'w') as fh:
         json.dump({
             'property': prop_id,
